@@ -663,6 +663,25 @@ def run(ctx):
     nseg = ctx.n(4000, 150000)
     seglists = [gen_segs(rng, rng.choice([1, 2, 3, 4, 6, 9, 14]), wf_only=(rng.random() < 0.8)) for _ in range(nseg)]
     check_segs(ctx, seglists, 'segments')
+    # scripts with MANY distinct embedded expressions (11..40: variable numbers with two digits, PBK_10 sorts before
+    # PBK_2 as text), some repeated, some inside literals and comments
+    many = []
+    for k in range(ctx.n(60, 1500)):
+        nd = rng.choice([11, 12, 13, 15, 21, 40])
+        exprs = ['%03d%03d' % (rng.randrange(1, 60), j) for j in range(nd)]
+        order = exprs + [rng.choice(exprs) for _ in range(rng.randrange(0, 6))]
+        if rng.random() < 0.5:
+            rng.shuffle(order)
+        segs = []
+        for e in order:
+            segs.append(('C', rng.choice(['a = ', ' + ', '\nprint(', ', ', 'x ', ' == '])))
+            segs.append(('E', rng.choice(PAD) + e + rng.choice(PAD)))
+            if rng.random() < 0.1:
+                segs.append(('S', '${' + rng.choice(exprs) + '}'))
+            if rng.random() < 0.05:
+                segs.append(('Mc', ' ${' + rng.choice(exprs) + '}'))
+        many.append(segs)
+    check_segs(ctx, many, 'many-expressions')
 
     # --- random strings over a wide alphabet ------------------------------------
     wide = "${}${}'\"#\n\n\\ab%/ \t\r\x0c\xa0\u2003=,_01"
